@@ -3,7 +3,6 @@
    cvlan <str>                                    -> any | exact <n> | err
    cfg <G> {<name> <R> {<sv> <cv>}} <Q> {<s> <c>} -> <validate> ; <lookup results...>     (R = -1: nil group entry)
      <validate> = valid | collision <svlan> <sel> <prev> <name> | malformed <name> <idx> svlan|cvlan
-   argv[3] = repaired | defective
    cfgnil <Q> {<s> <c>}                           -> same, for a nil configuration
    sweep <G> {<name> <R> {<sv> <cv>}}             -> <validate> ; md5=<digest of the 4096x4096 table> hits=<n> rowruns=<k> diff=none
    runes <kind> <lo> <hi>                         -> accepted code points, as runs lo-hi=<result>
@@ -45,22 +44,14 @@ let read_config toks =
       | _ -> failwith "bad cfg" in
     groups ng rest []
 
-(* variant "repaired" (default): ValidateMatchIndex rejects unparseable ranges (validate_strict, for which the
-   theorems C14_strict_* are proved); variant "defective": what the code does today (validate: they are skipped) *)
-let variant = if Array.length Sys.argv > 3 then Sys.argv.(3) else "repaired"
+(* ValidateMatchIndex as of /repo 461c9d7: unparseable ranges are rejected (validate_strict, theorems C14_strict_accepts_iff etc.) *)
 let show_validate cfg =
-  if variant = "defective" then
-    match validate cfg with
-    | None -> "valid"
-    | Some (((s, se), prev), name) ->
-      Printf.sprintf "collision %d %s %s %s" (int_of_n s) (show_sel se) (token_of_cps prev) (token_of_cps name)
-  else
-    match validate_strict cfg with
-    | VOk -> "valid"
-    | VCollision (s, se, prev, name) ->
-      Printf.sprintf "collision %d %s %s %s" (int_of_n s) (show_sel se) (token_of_cps prev) (token_of_cps name)
-    | VMalformed (name, idx, w) ->
-      Printf.sprintf "malformed %s %d %s" (token_of_cps name) (int_of_nat idx) (if w then "svlan" else "cvlan")
+  match validate_strict cfg with
+  | VOk -> "valid"
+  | VCollision (s, se, prev, name) ->
+    Printf.sprintf "collision %d %s %s %s" (int_of_n s) (show_sel se) (token_of_cps prev) (token_of_cps name)
+  | VMalformed (name, idx, w) ->
+    Printf.sprintf "malformed %s %d %s" (token_of_cps name) (int_of_nat idx) (if w then "svlan" else "cvlan")
 
 let queries cfg rest =
   let qs = match rest with _ :: qs -> qs | [] -> [] in
